@@ -42,6 +42,10 @@ theorem any_initAligned_text (files : List Bytes) :
 def blank (files : List Bytes) (dw : Nat) : Base :=
   { files := files, chunk := { dataWords := chunkInitWords dw }, bufWords := dw }
 
+/-- nothing is buffered in the blank object: the early-return clears of `ResetPartition` / `BeforeFirst`
+are no-ops on it (so C03 / C04 do not depend on fix C05-1) -/
+theorem clearsOk_blank (files : List Bytes) (dw : Nat) : ClearsOk (blank files dw) := Or.inr ⟨rfl, rfl⟩
+
 /-- `mkBase` with its matcher on the `ResetPartition` result as a function (never evaluated) -/
 def mkBaseK (w : Nat) (r : Except Err Base) : Except Err Base :=
   match r with
@@ -84,8 +88,10 @@ theorem mkSt_text_ok (hS : SeekOk Fmt.text) (files : List Bytes) (k n w dw : Nat
       ((s.base.offBegin = b ∧ s.base.offEnd = e) ∨ (s.base.offEnd ≤ s.base.offBegin ∧ b = e)) := by
   have ha : Fmt.text.align = 1 ∨ Fmt.text.align = 4 := Or.inl rfl
   obtain ⟨s', hs'⟩ := resetPartition_ok Fmt.text ha hS (blank files dw) k n hne hfiles ht hk hn b e hb he
-  obtain ⟨_, hC, hR, hF, _, _⟩ := resetPartition_spec Fmt.text ha hS (blank files dw) s' k n hne ht hk hn hs'
-  have hrg := resetPartition_range Fmt.text ha hS (blank files dw) s' k n hne ht hk hn hs' b e hb he
+  obtain ⟨_, hC, hR, hF, _, _⟩ := resetPartition_spec Fmt.text ha hS (blank files dw) s' k n hne
+    (clearsOk_blank files dw) ht hk hn hs'
+  have hrg := resetPartition_range Fmt.text ha hS (blank files dw) s' k n hne
+    (clearsOk_blank files dw) ht hk hn hs' b e hb he
   refine ⟨{ base := { s' with bufWords := w }, wrap := none }, ?_, rfl, hC, hR, hF, rfl, hrg⟩
   rw [mkSt_text_eq files k n w dw hfiles hne, hs']
   rfl
